@@ -11,3 +11,4 @@
 import SnowProofs.Props.GenTie.Snowing0D
 import SnowProofs.Props.GenTie.Flake
 import SnowProofs.Props.GenTie.Snowing1D
+import SnowProofs.Props.GenTie.Evap
